@@ -173,6 +173,25 @@ def run_child(spec):
     t0 = time.time()
     with open(log, "w") as f:
         p = subprocess.run(cmd, cwd=os.path.dirname(log), env=env, stdout=f, stderr=subprocess.STDOUT)
+    # testing/synctest (go1.25.1) can also spin for ever inside runtime.getOrSetBubbleSpecial (the
+    # bookkeeping that ties a sync.WaitGroup to its bubble), called from WaitGroup.Add: the goroutine is
+    # *running* in the runtime, the world cannot be stopped, everything else waits for it. The driver's
+    # watchdog then ends the child. That is the virtual-time test environment failing, not the code
+    # under test making no progress: such a shard is run again (up to three times, every log kept).
+    spins = 0
+    while spins < 3 and not has_complete_summary(env.get("VERIF_OUT", "")):
+        try:
+            logtxt = open(log, errors="replace").read()
+        except OSError:
+            break
+        if not re.search(r"goroutine \d+ [^\n]*\[running[^\]]*synctest bubble[^\]]*\]:\n(?:[^\n]*\n){0,8}?[^\n]*runtime\.getOrSetBubbleSpecial", logtxt):
+            break
+        spins += 1
+        shutil.copy(log, log + ".synctest-spin%d" % spins)
+        with open(log, "w") as f:
+            f.write("(attempt %d: the one before was stuck inside testing/synctest's WaitGroup bookkeeping in the Go runtime, see %s.synctest-spin%d)\n" % (spins + 1, os.path.basename(log), spins))
+            f.flush()
+            p = subprocess.run(cmd, cwd=os.path.dirname(log), env=env, stdout=f, stderr=subprocess.STDOUT)
     # a child that died inside the Go runtime itself (no summary, a crash whose stack holds no frame of
     # the code under test - e.g. a SIGSEGV in runtime.GOMAXPROCS) says nothing about the property: run
     # that shard once more; the first log is kept. A crash with an ebu frame is never retried.
